@@ -7,3 +7,5 @@ package iereader
 //@ func NewParser(root)
 //@   requires root != nil
 //@   ensures result != nil && fresh(result)
+//@   ensures [C14] #all-meta-elements-of-the-document result.root == root && len(result.allMeta) == ebtLen(root, "meta") &&
+//@              forall(i, 0 <= i && i < len(result.allMeta), result.allMeta[i] == ebtAt(root, "meta", i))
